@@ -97,7 +97,96 @@ about it).
 """
 
 
+INTRO4 = """### 9.4d Fourth round: by file group instead of by property (the files earlier rounds hardly touched)
+
+The first three rounds gave each agent one property; 58 of their 181 patches landed in `nn/functional.py`, 61 in `hedger.py`,
+`derivative/base.py` and `bisect.py`, and 29 source files were never touched. The fourth round turns the assignment round: ten fresh
+sub-agents (same isolation) each received all twenty property statements and one *group of files* (feature base classes and the name
+registry; `instruments/base.py` and the concrete derivative classes; `MultiLayerPerceptron` / `Naked` / lazy helpers / `ensemble_mean`; the
+random engines, `cast_state`, the Kou generator; the `BlackScholes` factory, `_base.py` and the binary / lookback modules; `_utils/parse.py`,
+`hook.py`, `autogreek.py`; the primary instruments other than `BrownianStock` / `VasicekRate`; `svi` / `clamp` / `ww` and the criterion
+plumbing; the less used features and the containers; the hedger's constructor / `price` / `compute_portfolio` and the derivative
+registries) and had to break any property through a change confined to that group, naming the property. 30 candidates, all re-confirmed
+(`seeded/Dnn-k/`). First run against the checks as they stood after §9.4c: 18 reported by the check of the property the agent named,
+**12 not** (D01-2, D01-3, D02-2, D02-3, D03-1, D03-2, D03-3, D04-3, D06-2, D08-1, D08-2, D10-3; at least D01-2, D02-2, D02-3 and D10-3 were
+reported by another property's check, the rest by none). After the work below all 30 are reported by their own check.
+
+| seed | change (one line, from the agent's meta.json) | verdict | checks that report it | first rule |
+|---|---|---|---|---|
+"""
+
+CHANGES4 = """
+What the fourth round changed - almost every miss was an *assumption the analyser made about code it did not read*:
+
+* **The hedger the rules analyse is the hedger the constructor builds** (D01-2, D10-3). `world.hedger` used to assemble a symbolic `Hedger`
+  by hand (model, `FeatureList`, criterion, the documented hook). It now interprets the real `Hedger.__init__` on the feature objects, so
+  a `get_feature` that deep-copies `Feature` instances, inputs stored in another order, or another hook are part of every analysis;
+  `world.registered_hooks` reads the installed forward hooks off the constructor, and C14.R2 drives *those* (a plain function, a lambda or
+  a closure alike) instead of the function it expected (`_save_prev_hedge` wrapping `save_prev_output(..., output.detach())`).
+* **Built-in models are code, too** (D03-1, D03-3 and, found while looking, time mixing): the hedging model had been an opaque callable
+  everywhere. `purity.builtin_model_runs` interprets the `forward` of every class of `pfhedge.nn.modules` that has a pfhedge-level forward
+  (`MultiLayerPerceptron` and `Naked` included) on a generic instance: C14.R5m no graph-breaking construct between input and output
+  (`super().forward(input.detach())`), C16.R3m nothing stored on the module (`Naked` memoising its zeros), C02.R4t / C03.R2m no operator
+  along the time or path axis (C02 admits a running sum / extremum that only looks back, C03 does not: the step-by-step evaluation hands
+  the model one step at a time).
+* **Shared feature objects** (D01-3, and D01-1): hedger-level call histories (C16.R8, C03.R3h): for every ordered pair of computing
+  methods `h.m2(d2)` after `h.m1(d1)` is a function of `d2` only; two hedgers handed the same feature objects - bare, and inside one
+  `ModuleOutput`, which binds its inputs in place - compute functions of their own model and their own previous hedge.
+* **Order independence of readers** (D02-3): after one simulation every state reader evaluated *alone* on a fresh derivative returns the
+  same term as in a sequence where the other readers ran first (a running-maximum cache keyed on the price tensor but not on the `log`
+  flag serves `max_log_moneyness` the value of `max_moneyness`).
+* **The re-binding idiom** (D02-2): `_set_attr_and_docstring(Cls, "name", Base.method)` re-binds a class attribute at import time; the
+  front end already followed it, the rules did not ask what it binds. 78 of 78 such statements on the pinned tree bind a method under its
+  own name - now an obligation each (C07.R5, C08.R7, C12.R2, C17.R4), and the override rule reports a base-class method bound under
+  another name (`"max_log_moneyness", OptionMixin.log_moneyness`).
+* **dtype provenance past the instruments** (D03-2, D06-2, D08-1): C17.R6 now also covers `parse_spot` / `parse_volatility` /
+  `parse_time_to_maturity`, `ensemble_mean` (both branches), `Hedger.compute_portfolio / compute_pl / compute_loss / price` with a symbolic
+  `n_times`, and `forward` / `cash` of every criterion; `.item()` / `.tolist()` leave the tensor world (a bracket made of Python floats is
+  re-created in the default dtype), comprehension lists of unknown length have the provenance of their element.
+* **Engines honour the dtype request** (D04-3): C11.R3e probes the three engine entry points with a dtype and with none (the global
+  default, never a dtype fixed inside the engine: drawing in float64 and casting back with `.to(dtype=None)` returns float64).
+* **The module's own width** (D08-2): C18.R3m evaluates `WhalleyWilmott.width` in the extended reals with the module's gamma an arbitrary
+  real (the functional `ww_width` had been covered, an inlined `gamma.pow(2/3)` in the module had not).
+* **Every sequence of casts** (not asked for by a seed): C17 is stated over "any sequence of to()/float()/double()/half()/simulate()/
+  register_buffer calls", so `registry.cast_histories_rule` interprets every sequence of at most 2 (thorough: 3; 13 104 sequences on the
+  eight primary classes, from a new and from a simulated instrument) such calls with `_parse_to` modelled, and compares the declared
+  dtype / device, the buffer names and each buffer's effective cast with a reference model (C17.R8x); minimal failing sequence for a
+  `to()` that re-registers before it updates the declaration: `[<simulated> ; double() ; float()]`.
+* Smaller: `Naked` may return any zero factory (a rule that demanded `new_zeros` literally was a false alarm in waiting); `yield from`,
+  `dict.update` stores, `callable`; C13.R3 counts `int(x / dt)` and `x // dt` as rounding hazards; dtype provenance lets exact constants and
+  integer-valued arithmetic be converted after the fact (`torch.zeros(n).to(spot)` is not a loss of precision).
+
+Observations from the agents that are not claimed: `BSLookbackOption.delta / gamma` (automatic Greeks) return NaN at zero time to maturity
+or zero volatility on the pinned tree (D06 agent; C18 lists the lookback Greeks as not decided); a Python-float strike that float32 cannot
+represent costs 1e-7 in float64 automatic Greeks through `parse_spot` (D06 agent, same observation as in round 2); `register_underlier`
+called directly leaves an earlier instance attribute of the same name pointing at the old underlier.
+
+"""
+
+
+def rows_for(prefix_re):
+    out = []
+    for line in (V / "seeded" / "RESULTS.md").read_text().splitlines():
+        m = re.match(r"\| (" + prefix_re + r") \| (C\d\d) \| ([a-z-]+) \| ([^|]*) \| ([^|]*) \| ([^|]*) \| `?(.*?)`? \|$", line)
+        if m:
+            sid, prop, verdict, fired, errs, what, diag = (x.strip() for x in m.groups())
+            rule = re.search(r"\b(C\d\d\.R\w+)\b", diag)
+            out.append((sid, prop, what[:120].replace("|", "/"), verdict, fired, rule.group(1) if rule else "-"))
+    return out
+
+
 def main():
+    r4 = rows_for(r"D\d\d-\d")
+    if r4:
+        t4 = "".join(f"| {sid} ({prop}) | {what} | {verdict} | {fired} | {rule} |\n" for sid, prop, what, verdict, fired, rule in r4)
+        p = V / "DESIGN.md"
+        s = p.read_text()
+        a = s.find("### 9.4d ")
+        b = s.find("### 9.5 ")
+        if a == -1:
+            a = b
+        p.write_text(s[:a] + INTRO4 + t4 + CHANGES4 + s[b:])
+        print(f"9.4d written: {len(r4)} rows")
     table = "".join(f"| {sid} | {what} | {verdict} | {fired} | {rule} |\n" for sid, what, verdict, fired, rule in rows)
     text = INTRO + table + CHANGES
     p = V / "DESIGN.md"
